@@ -1,7 +1,5 @@
 //! Two-way string matching on steroids.
 
-use std::cmp::max;
-
 use memchr_rs::memchr;
 
 const SIMD_THRESHOLD: usize = 16;
@@ -67,29 +65,30 @@ pub fn find(haystack: &str, needle: &str) -> Option<usize> {
         return None;
     }
 
-    let (crit, period) = crit_period(n);
+    // Anchor the scan on the byte at the critical position. Every candidate
+    // window is verified in full, and the scan resumes right after the anchor
+    // that failed, so no occurrence can be skipped.
+    let (crit, _) = crit_period(n);
     let anchor = n[crit];
 
-    let mut offset = 0;
+    let mut offset = crit;
 
-    while offset + nlen <= hlen {
+    while offset < hlen {
         let index = memchr(anchor, h, offset);
         if index >= hlen {
             return None;
         }
 
-        if index < crit {
-            offset = index + 1;
-            continue;
-        }
-
         let start = index - crit;
-        if start + nlen <= hlen && &h[start..start + nlen] == n {
+        if start + nlen > hlen {
+            // Later anchors only produce later windows, none of which fit.
+            return None;
+        }
+        if &h[start..start + nlen] == n {
             return Some(start);
         }
 
-        let shift = max(1, period);
-        offset = start.saturating_add(shift);
+        offset = index + 1;
     }
 
     None
@@ -100,7 +99,7 @@ fn maximal_suffix(x: &[u8], rev: bool) -> (usize, usize) {
     let n = x.len();
     let (mut i, mut j, mut k, mut p) = (0, 1, 1, 1);
 
-    while j + k <= n {
+    while j + k < n {
         let ap = x[i + k];
         let a = x[j + k];
         if (a < ap && !rev) || (a > ap && rev) {
